@@ -1266,6 +1266,51 @@ class Engine:
     # ==================================================================================================
     # list comprehensions
     # ==================================================================================================
+    def filtered_comp(self, e, ec):
+        """[elt for x in xs if p(x)] with a pure element and filter: a fresh list of m <= n items, each of which is
+        elt(x) for some source item x that satisfies the filter (order and completeness are not modelled: over-approximation)"""
+        gen = e.generators[0]
+        st = ec.st
+        fx = ec.fx
+        n, get = self.iter_domain(gen.iter, ec, e.lineno)
+        st.assume(n >= 0)
+        i = fresh("ci", IntS)
+        si = st.copy()
+        si.assume(z3.And(i >= 0, i < n))
+        eci = EC(si)
+        eci.fx = fx
+        self.bind_for_target(gen.target, get(i), eci, e.lineno)
+        before = dict(si.heap.a)
+        conds = []
+        for c in gen.ifs:
+            cv = self.tb(self.ev(c, eci), eci)
+            conds.append(cv)
+            eci.guard.append(cv)
+        v = self.ev(e.elt, eci)
+        for cond, exc in eci.raises:
+            self.emit(fx, "comp-no-raise", e.lineno, si, z3.Not(cond), note="filter/element of the comprehension does not raise (%s)" % exc.what)
+        if not all(si.heap.a[m].eq(before[m]) for m in HEAP_NAMES):
+            raise OutOfSubset("filtered comprehension with an allocating element expression (line %d)" % e.lineno)
+        self.assumptions.add("A-FILTERCOMP: a filtered comprehension is over-approximated: every result item stems from a source item "
+                             "that passes the filter (order / completeness not modelled)")
+        r = self.new_ref(ec, "list")
+        arr = fresh("fcomp", smt.ArrIV)
+        m_ = fresh("fcomp_len", IntS)
+        st.assume(z3.And(m_ >= 0, m_ <= n))
+        j = fresh("cj", IntS)
+        q = fresh("cq", IntS)
+        sq = st.copy()
+        ecq = EC(sq)
+        ecq.fx = fx
+        self.bind_for_target(gen.target, get(q), ecq, e.lineno)
+        cq = [self.tb(self.ev(c, ecq), ecq) for c in gen.ifs]
+        vq = self.ev(e.elt, ecq)
+        from .tr import forall as _forall
+        st.assume(_forall([j], z3.Implies(z3.And(j >= 0, j < m_),
+                                          z3.Exists([q], z3.And(q >= 0, q < n, z3.And(cq), arr[j] == toV(vq)))), [arr[j]]))
+        self.list_set_all(ec, r, m_, arr)
+        return tV(V.ref(r))
+
     def ev_ListComp(self, e, ec):
         """[elt for x in xs]  (single generator, no filter).
         With a sidecar comprehension contract (`comps`, keyed by the source text): `each` - a predicate over the loop
@@ -1274,6 +1319,8 @@ class Engine:
         Without one the element expression must be pure: result[i] == elt(xs[i])."""
         if ec.spec:
             raise CheckerError("list comprehension inside a contract expression")
+        if len(e.generators) == 1 and e.generators[0].ifs and not e.generators[0].is_async:
+            return self.filtered_comp(e, ec)
         if len(e.generators) != 1 or e.generators[0].ifs or e.generators[0].is_async:
             raise OutOfSubset("comprehension with several generators or a filter (line %d)" % e.lineno)
         if ec.guard:
@@ -2060,12 +2107,17 @@ class Engine:
         return V.sv(v)
 
     def recv_str(self, recv, ec):
-        """receiver as z3 String if it is known to be a str, else None"""
+        """receiver of a str-only method (strip, split, startswith, replace, ...) as a z3 String; on anything but a str the
+        call raises AttributeError (bytes objects are not modelled)"""
         recv = normT(recv)
         if recv.k == "s":
             return recv.t
-        if recv.k == "V" and self.must(ec.st, is_s(recv.t)):
+        if recv.k == "V":
+            ec.may_raise(z3.Not(is_s(recv.t)), "AttributeError", getattr(ec, "line", 0), "str method on a non-str value")
             return V.sv(recv.t)
+        if recv.k in ("i", "b", "r"):
+            ec.may_raise(z3.BoolVal(True), "AttributeError", getattr(ec, "line", 0), "str method on a number")
+            return z3.StringVal("")
         return None
 
     def me_startswith(self, recv, e, ec):
@@ -2106,6 +2158,41 @@ class Engine:
         if s is None:
             return None
         return T("s", str_lower(s))
+
+    def me_split(self, recv, e, ec):
+        s_ = self.recv_str(recv, ec)
+        if s_ is None or len(e.args) > 1 or e.keywords:
+            return None
+        self.assumptions.add("A-SPLIT: str.split(sep) returns a fresh list of >= 1 strings; element 0 is the text before the first "
+                             "occurrence of sep (the whole string if there is none); with a separator no element contains it")
+        r = self.new_ref(ec, "list")
+        arr = fresh("parts", smt.ArrIV)
+        n = fresh("nparts", IntS)
+        i = z3.Int("i!")
+        ec.st.assume(z3.ForAll([i], z3.Implies(z3.And(i >= 0, i < n), is_s(arr[i])), patterns=[arr[i]]))
+        if e.args:
+            sep = self.strarg(self.ev(e.args[0], ec), ec, e.lineno, "split separator")
+            ec.may_raise(z3.Length(sep) == 0, "ValueError", e.lineno, "empty separator")
+            ec.st.assume(n >= 1)
+            ec.st.assume(V.sv(arr[0]) == z3.If(z3.Contains(s_, sep), z3.SubString(s_, 0, z3.IndexOf(s_, sep, 0)), s_))
+            ec.st.assume(z3.ForAll([i], z3.Implies(z3.And(i >= 0, i < n), z3.Not(z3.Contains(V.sv(arr[i]), sep))), patterns=[arr[i]]))
+            ec.st.assume(z3.ForAll([i], z3.Implies(z3.And(i >= 0, i < n), z3.Length(V.sv(arr[i])) <= z3.Length(s_)), patterns=[arr[i]]))
+        else:
+            ec.st.assume(n >= 0)
+        self.list_set_all(ec, r, n, arr)
+        return tV(V.ref(r))
+
+    def me_replace(self, recv, e, ec):
+        s_ = self.recv_str(recv, ec)
+        if s_ is None or len(e.args) != 2:
+            return None
+        a = self.strarg(self.ev(e.args[0], ec), ec, e.lineno, "replace arg")
+        b = self.strarg(self.ev(e.args[1], ec), ec, e.lineno, "replace arg")
+        f = z3.Function("str_replace_all", StrS, StrS, StrS, StrS)
+        self.assumptions.add("A-REPLACE: str.replace(a, b) is an uninterpreted total function with: no occurrence of a => unchanged")
+        r = f(s_, a, b)
+        ec.assume(z3.Implies(z3.Not(z3.Contains(s_, a)), r == s_))
+        return T("s", r)
 
     def me_splitlines(self, recv, e, ec):
         s_ = self.recv_str(recv, ec)
